@@ -2,6 +2,7 @@ import BddVerif.Props.C13
 import BddVerif.Props.C13Count
 import BddVerif.Lemmas.AlgoEqUtilSpec
 import BddVerif.Lemmas.AlgoEq2BytesSpec
+import BddVerif.Lemmas.AlgoEq3TextDriver
 #print axioms B.Props.C13.read_text_total
 #print axioms B.Props.C13.read_text_io_total
 #print axioms B.Props.C13.read_bytes_total
@@ -30,3 +31,19 @@ import BddVerif.Lemmas.AlgoEq2BytesSpec
 #print axioms B.AlgoEq2Bytes.read_bytes_total
 #print axioms B.AlgoEq2Bytes.read_bytes_io_total
 #print axioms B.AlgoEq2Bytes.Bdd_from_bytes_eq_model
+#print axioms B.Props.C13.validate_ok_iff
+#print axioms B.Props.C13.validate_err_of
+#print axioms B.Props.C13.validate_exhaustive
+#print axioms B.Props.C13.validate_err_iff
+#print axioms B.Props.C13.validate_outcome
+#print axioms B.Props.C13.wf_count_agrees
+#print axioms B.Props.C13.validate_count_eq_eval
+#print axioms B.Props.C13.from_nodes_count_eq_eval
+#print axioms B.Serial.rangeLoop_err
+#print axioms B.Serial.dfs_closed
+#print axioms B.Serial.dfs_run
+#print axioms B.AlgoEq3Text.Bdd_read_as_string_never_panics
+#print axioms B.AlgoEq3Text.Bdd_read_as_string_ok_iff
+#print axioms B.AlgoEq3Text.Bdd_read_as_string_err_iff
+#print axioms B.AlgoEq3Text.Bdd_from_string_panics
+#print axioms B.AlgoEq3Text.Bdd_read_as_string_slice
